@@ -60,11 +60,35 @@ def _val(s):
     return v if isinstance(v, int) else SInt(v)
 
 
+_ORIG = {}
+
+
+def _originals():
+    """the real methods the unit harnesses replace by recorders (worker processes are shared by jobs)"""
+    from aiohttp import web_fileresponse, web_response
+
+    if not _ORIG:
+        _ORIG["prepare"] = web_response.StreamResponse.prepare
+        _ORIG["sendfile"] = web_fileresponse.FileResponse._sendfile
+        _ORIG["stat"] = web_fileresponse.FileResponse._get_file_path_stat_encoding
+    return _ORIG
+
+
+def _restore_originals():
+    from aiohttp import web_fileresponse, web_response
+
+    o = _originals()
+    web_response.StreamResponse.prepare = o["prepare"]
+    web_fileresponse.FileResponse._sendfile = o["sendfile"]
+    web_fileresponse.FileResponse._get_file_path_stat_encoding = o["stat"]
+
+
 def _serve(range_header, size):
     from aiohttp import web, web_fileresponse, web_response
     from aiohttp.test_utils import make_mocked_request
     import pathlib
 
+    _restore_originals()
     rec = {}
 
     async def fake_prepare(self, request):
@@ -231,6 +255,7 @@ def conditional(ctx, method="GET"):
     from harness.vloop import VLoop, install
 
     install(VLoop())
+    _restore_originals()
     rec = {}
 
     async def fake_prepare(self, request):
@@ -366,6 +391,7 @@ def static_confinement(ctx, nseg=3, first=None):
 
     logging.disable(logging.CRITICAL)
     loop = install(VLoop())
+    _restore_originals()
     base = tempfile.mkdtemp(prefix="verif-c15-", dir="/var/tmp")
     try:
         root = os.path.join(base, "root")
